@@ -33,6 +33,7 @@ type FuncCtx struct {
 	loopHeadSt   map[*ssa.BasicBlock]*State
 	loopFrames   map[*ssa.BasicBlock][]string
 	ghostVars    map[string]SV
+	callResults  map[string][]SV
 	depth        int
 	nRet         int
 }
@@ -90,7 +91,7 @@ func (v *Verifier) VerifyFunction(key string) {
 	}()
 	fc := &FuncCtx{v: v, fn: fn, spec: spec, key: key, short: shortFuncName(key), paramSV: map[string]SV{}, allocsByName: map[string][]*ssa.Alloc{},
 		cellClass: map[*ssa.Alloc]bool{}, safeCount: map[string]int{}, callCount: map[string]int{}, mutatedParam: map[string]bool{},
-		loopOrd: map[*ssa.BasicBlock]int{}, loopHeadSt: map[*ssa.BasicBlock]*State{}, ghostVars: map[string]SV{}, loopFrames: map[*ssa.BasicBlock][]string{}}
+		loopOrd: map[*ssa.BasicBlock]int{}, loopHeadSt: map[*ssa.BasicBlock]*State{}, ghostVars: map[string]SV{}, callResults: map[string][]SV{}, loopFrames: map[*ssa.BasicBlock][]string{}}
 	for _, g := range spec.Ghosts {
 		so, gt, err := v.resolveTypeOrSort(g.Type)
 		if err != nil {
@@ -240,6 +241,17 @@ func (fc *FuncCtx) env(st, old *State) *Env {
 		for _, l := range fc.spec.Lets {
 			e.lets[l.Name] = l.Type
 		}
+	}
+	e.callRet = func(name string, ord, idx int) (SV, bool) {
+		for k, rs := range fc.callResults {
+			// keys are "<short callee>#<ord>"
+			hash := strings.LastIndex(k, "#")
+			cs, o := k[:hash], k[hash+1:]
+			if o == fmt.Sprint(ord) && (cs == name || strings.HasSuffix(cs, "."+name)) && idx < len(rs) {
+				return rs[idx], true
+			}
+		}
+		return SV{}, false
 	}
 	e.progVar = func(name string, s *State) (SV, bool, error) {
 		base := name
